@@ -19,6 +19,8 @@ def dispatch(kind, payload):
         return r_compact(model, payload)
     if kind == "hex":
         return r_hex(model)
+    if kind == "hilbert":
+        return r_hilbert(model)
     return {"confirmed": False, "note": "no native replay for kind %s" % kind}
 
 
@@ -284,3 +286,63 @@ def r_hex(model):
         except Exception as e:
             return {"confirmed": True, "input": n, "observed": "raised %s: %s" % (type(e).__name__, e), "expected": want}
     return {"confirmed": False, "note": "no failing value among %d candidates" % len(seen)}
+
+
+# ------------------------------------------------------------------------------------------------ C18
+def hilbert_cases(model):
+    import random
+    rng = random.Random(0)
+    ORI = ("uv", "vu", "uw", "wu", "vw", "wv")
+    if isinstance(model.get("S"), int) and isinstance(model.get("h"), int):
+        for o in ORI:
+            yield o, model["h"], model["S"]
+    # small levels exhaustively
+    for h in range(1, 6):
+        for o in ORI:
+            for S in range(4 ** h):
+                yield o, h, S
+    # directed digit patterns and random indices at every level (in this order: low levels first, so that
+    # state kept between calls is exercised across levels)
+    for h in range(1, 29):
+        n = 4 ** h
+        pats = {0, 1, 2, 3, 11, 12, 21, n - 1, n - 2, n // 2, n // 2 - 1, n // 4, 3 * n // 4, n // 3, 2 * n // 3, (n - 1) // 3}
+        for d in range(4):
+            pats.add(sum(d * 4 ** i for i in range(h)))
+            for e in range(4):
+                pats.add(e * 4 ** (h - 1) + sum(d * 4 ** i for i in range(h - 1)))
+                if h >= 2:
+                    pats.add(e * 4 ** (h - 2) + sum(d * 4 ** i for i in range(h - 2)))
+        for _ in range(12):
+            pats.add(rng.randrange(n))
+        for o in ORI:
+            for S in sorted(p for p in pats if 0 <= p < n):
+                yield o, h, S
+
+
+def r_hilbert(model):
+    """index -> anchor -> pentagon -> centre -> index, as the library composes them (quintant 0)."""
+    from a5.core.hilbert import s_to_anchor, ij_to_s
+    from a5.core.tiling import get_pentagon_vertices
+    from a5.core.coordinate_transforms import face_to_ij
+    tried = 0
+    seen_cells = {}
+    for o, h, S in hilbert_cases(model or {}):
+        tried += 1
+        try:
+            anchor = s_to_anchor(S, h, o)
+            pent = get_pentagon_vertices(h, 0, anchor)
+            c = pent.get_center()
+            scale = 2 ** h
+            ij = face_to_ij((c[0] * scale, c[1] * scale))
+            back = ij_to_s(ij, h, o)
+        except Exception as e:
+            return {"confirmed": True, "input": {"orientation": o, "level": h, "S": S}, "observed": "raised %s: %s" % (type(e).__name__, e)}
+        if back != S:
+            return {"confirmed": True, "input": {"orientation": o, "level": h, "S": S}, "observed": "ij_to_s(centre) = %d" % back, "expected": S,
+                    "calls_tried": tried}
+        if h <= 5:
+            key = (o, h, round(ij[0] * 3), round(ij[1] * 3), anchor.k, tuple(anchor.flips))
+            if key in seen_cells and seen_cells[key] != S:
+                return {"confirmed": True, "input": {"orientation": o, "level": h, "S": [seen_cells[key], S]}, "observed": "two indices give the same cell"}
+            seen_cells[key] = S
+    return {"confirmed": False, "note": "no failing index among %d (orientation, level, index) cases" % tried}
